@@ -36,7 +36,7 @@ EXHAUSTIVE = {"quick": False, "thorough": False}
 SCOPE = {"quick": "700 datasets (n<=3, m<=2, exhaustive) x 3 (naming, scheme) + 17 corner datasets x 7 namings x 5 "
                   "schemes + 600 sampled (n<=5, m<=4); %d schemes rotating (presets, multiples, generic, boundary, "
                   "all-zero T)" % len(base.SCHEMES),
-         "thorough": "adds all datasets n<=3 m=3 (17.6k), n=4 m<=2 (22k), 4000 sampled (n<=6, m<=5)"}
+         "thorough": "adds all datasets n<=3 m=3 (17.6k), n=4 m<=2 (22k), 8000 sampled (n<=6, m<=5)"}
 CHUNK = 4
 TIMEOUT = 300
 TOL = 1e-6
